@@ -21,6 +21,9 @@ pub enum WStep {
     MidBuild { i: u8, victim: u8, after_read: bool },
     /// Several changes in a row without waiting.
     Burst(Vec<u8>),
+    /// A change, then - as soon as the build it triggered has completed and been recorded - a
+    /// second change of the same input (typically 20-80 ms after the first).
+    QuickFollowUp(u8),
 }
 
 #[derive(Debug, Clone, Serialize, Deserialize)]
@@ -35,6 +38,7 @@ pub fn c06_case() -> impl Strategy<Value = C06Case> {
         3 => any::<u8>().prop_map(WStep::Idle),
         4 => (any::<u8>(), any::<u8>(), any::<bool>()).prop_map(|(i, victim, after_read)| WStep::MidBuild { i, victim, after_read }),
         1 => prop::collection::vec(any::<u8>(), 2..=4).prop_map(WStep::Burst),
+        3 => any::<u8>().prop_map(WStep::QuickFollowUp),
     ];
     (raw_graph(4), any::<bool>(), prop::collection::vec(step, 0..=4)).prop_map(|(raw, prebuilt, steps)| {
         let mut graph = build_graph(&raw);
@@ -202,6 +206,36 @@ pub fn eval_c06(case: &C06Case, exclude_after_read: bool) -> CaseResult {
                     edit(&mut inputs, i, &mut counter);
                     history.push(format!("idle: change in_{}", i));
                     classes.insert("idle-change".into());
+                    if wait_quiescent(&mut z, &sb, Duration::from_secs(20)).is_err() {
+                        break 'steps;
+                    }
+                }
+                WStep::QuickFollowUp(b) => {
+                    let i = (*b as usize * n) >> 8;
+                    let id = g.ids(i);
+                    let state = sb.path(&format!("proj/.zinoma/{}.checksums", id));
+                    let mtime = |p: &std::path::Path| std::fs::metadata(p).and_then(|m| m.modified()).ok();
+                    let f_before = finished(&sb.trace(), &id);
+                    let m_before = mtime(&state);
+                    edit(&mut inputs, i, &mut counter);
+                    history.push(format!("quick follow-up: change in_{}", i));
+                    // wait until that build finished AND its record was rewritten
+                    let t0 = Instant::now();
+                    let mut recorded = false;
+                    while t0.elapsed() < Duration::from_secs(10) {
+                        if finished(&sb.trace(), &id) > f_before && mtime(&state).is_some() && mtime(&state) != m_before {
+                            recorded = true;
+                            break;
+                        }
+                        std::thread::sleep(Duration::from_millis(1));
+                    }
+                    if recorded {
+                        std::thread::sleep(Duration::from_millis(15));
+                        edit(&mut inputs, i, &mut counter);
+                        in_flight_edit = true;
+                        history.push(format!("  ... second change of in_{} {} ms after the first", i, t0.elapsed().as_millis()));
+                        classes.insert("quick-follow-up".into());
+                    }
                     if wait_quiescent(&mut z, &sb, Duration::from_secs(20)).is_err() {
                         break 'steps;
                     }
